@@ -43,7 +43,7 @@ pub fn gen_argument(r: &mut Rng, rich: bool) -> Argument {
         6 => ArgumentType::Table,
         7 => ArgumentType::Vararg,
         8 => ArgumentType::Constant(
-            (0..r.range(1, 3))
+            (0..r.range(0, 3)) // an empty list is a legal (if useless) declaration
                 .map(|_| (*r.pick(&["count", "collect", "a b", "x"])).to_string())
                 .collect(),
         ),
